@@ -31,7 +31,17 @@ void STUB_secp256k1_ecmult_const(secp256k1_gej *r, const secp256k1_ge *a, const 
 void STUB_secp256k1_gej_add_ge(secp256k1_gej *r, const secp256k1_gej *a, const secp256k1_ge *b) { int i = glue_next(4); glue_a[i] = *a; glue_b[i] = *b; *r = glue_R[i]; }
 void STUB_secp256k1_gej_add_ge_var(secp256k1_gej *r, const secp256k1_gej *a, const secp256k1_ge *b, secp256k1_fe *rzr) { int i = glue_next(4); (void)rzr; glue_a[i] = *a; glue_b[i] = *b; *r = glue_R[i]; }
 static secp256k1_gej glue_c[GLUE_MAX];
-void STUB_secp256k1_gej_add_var(secp256k1_gej *r, const secp256k1_gej *a, const secp256k1_gej *b, secp256k1_fe *rzr) { int i = glue_next(5); (void)rzr; glue_a[i] = *a; glue_c[i] = *b; *r = glue_R[i]; }
+/* a + b for two Jacobian operands.  The result is a free point, EXCEPT for what the group law fixes outright on the canonical (z = 1)
+ * points of this model: inf + Q = Q, P + inf = P, and for finite P, Q: P + Q = inf  <=>  Q = -P  <=>  (x equal, y opposite).
+ * So "is the sum infinite" decides point equality exactly, however the code under analysis phrases the comparison. */
+static int glue_z1(const secp256k1_gej *p) { return p->z.n[0] == 1 && !(p->z.n[1] | p->z.n[2] | p->z.n[3] | p->z.n[4]); }
+void STUB_secp256k1_gej_add_var(secp256k1_gej *r, const secp256k1_gej *a, const secp256k1_gej *b, secp256k1_fe *rzr) {
+    int i = glue_next(5); secp256k1_gej out = glue_R[i]; (void)rzr; glue_a[i] = *a; glue_c[i] = *b;
+    if (a->infinity) out = *b;
+    else if (b->infinity) out = *a;
+    else if (glue_z1(a) && glue_z1(b)) out.infinity = (fe_cval(&a->x) == fe_cval(&b->x) && fe_cval(&a->y) == negP(fe_cval(&b->y)));
+    glue_R[i] = out; *r = out;
+}
 #endif
 /* value of a 32-byte storage word array (4 native-endian uint64), as used by pubkey / keypair / signature objects */
 static bvw st_val(const unsigned char *p) { uint64_t w[4]; bvw v = 0; int i; memcpy(w, p, 32); for (i = 3; i >= 0; i--) v = (v << 64) | w[i]; return v; }
